@@ -40,7 +40,8 @@ RULE = (
     "C-locale environment (case descriptor key env='C-locale'), one child per block, same oracles plus failed_save_leaves_target."
 )
 ASSUMPTIONS = [
-    "containment is lexical and component-wise on POSIX paths without '..' (the property does not settle '..'); '/data2/x.wav' is outside '/data'",
+    "containment is lexical and component-wise on POSIX paths; '/data2/x.wav' is outside '/data'. The property does not settle what '..' means for "
+    "containment, so '..' only occurs inside the spelling of one save directory whose recordings carry the same spelling as prefix",
     "a relative recording path is outside an absolute audio directory",
     "a recording whose path IS the audio directory: both outcomes are admissible (error + nothing written, or stored as '.' and "
     "relocated to B itself); each is checked for internal consistency",
@@ -62,7 +63,9 @@ PREVIOUS = "PREVIOUS CONTENT OF THE TARGET\n" * 256  # 7936 bytes: longer than a
 
 
 def dirs(tier):
-    d = ["/data", "/data/a b", "/data/ü/深", "rel/audio"]
+    # the last directory is spelt with an up-level reference; its recordings are spelt with the same prefix, so they are inside it
+    # under the lexical and under the resolving reading alike
+    d = ["/data", "/data/a b", "/data/ü/深", "rel/audio", "/data/sub/../audio"]
     if tier != "quick":
         d += ["/d.wav"]
     return d
